@@ -3,11 +3,11 @@ import subprocess
 from vp.api import Q, Mutant
 from vp import ptg
 
-TITLE = "parsec-ptgpp rejects programs exceeding the runtime limits on flows and dependencies"
+TITLE = "parsec-ptgpp rejects programs exceeding the runtime limits on flows, dependencies and locals"
 JC = "parsec/interfaces/ptg/ptg-compiler/jdf.c"
 OUTSIDE = ["'accepted => emitted C compiles' for arbitrary programs (a string-building code generator plus a C compiler cannot be "
            "executed symbolically); only the limit clause is decided, plus concrete replays through the real ptgpp + gcc",
-           "determinism of the output", "the MAX_LOCAL_COUNT check of jdf2c.c (jdf_generate_task_typedef; exits the process)",
+           "determinism of the output", 
            "more than 23 flows; dependencies (0..12, symbolic direction) on the first two flows only, the other flows carry none"]
 ASSUMPTIONS = ["the AST shapes are those the grammar can produce: flow type in {CTL, READ, WRITE, RW}; every dependency is either input or output",
                "limits as configured in this build: MAX_PARAM_COUNT=20, MAX_DEP_IN_COUNT=MAX_DEP_OUT_COUNT=10"]
@@ -30,24 +30,45 @@ def jdf_text(nr, nw, nc, nx):
             "TASK(k)\n\n  k = 0 .. NT\n: A(k,0)\n\n" + "\n".join(flows) + "\nBODY\n{\n}\nEND\n")
 
 
+def jdf_text_locals(named, nld):
+    """named locals in total: k, c (defined with `nld` local indices, a plain expression if nld == 0) and named-2 derived ones"""
+    idx = ", ".join("i%d = 0 .. 1" % i for i in range(nld))
+    cdef = ("[ %s ] %s + k" % (idx, " + ".join("i%d" % i for i in range(nld)))) if nld else "k + 1"
+    loc = "\n".join("  d%d = k + %d" % (i, i) for i in range(named - 2))
+    return ("extern \"C\" %{\n#include \"parsec.h\"\n%}\n\nA   [type = \"parsec_data_collection_t*\"]\nNT  [type = int]\n\n"
+            "TASK(k, c)\n\n  k = 0 .. NT\n  c = " + cdef + "\n" + loc + "\n: A(k,0)\n\n  READ  R0 <- A(k, 0)\nBODY\n{\n}\nEND\n")
+
+
+def real_run(ctx, q, qdir, overlays, text, over, kfclass, what):
+    jp = os.path.join(qdir, "c24prog.jdf")
+    with open(jp, "w") as f:
+        f.write(text)
+    r = ptg.run(ctx, jp, qdir, name="c24prog", overlays=overlays, check=False, opts=["--Werror"])
+    cc_rc = -1
+    cc_err = ""
+    if r["rc"] == 0:
+        cmd = ["gcc", "-fsyntax-only", "-w", "-D_GNU_SOURCE", "-std=gnu11", "-I."] + ctx.inc_flags(overlays) + ["c24prog.c"]
+        p = subprocess.run(cmd, cwd=qdir, stdout=subprocess.PIPE, stderr=subprocess.PIPE, text=True)
+        cc_rc = p.returncode
+        cc_err = "\n".join(l for l in p.stderr.splitlines() if "error" in l)[:400]
+    with open(os.path.join(qdir, "c24_result.h"), "w") as f:
+        f.write("#define PTGPP_RC %d\n#define CC_RC %d\n#define OVER_LIMIT %d\n#define IN_KF_CLASS %d\n" % (r["rc"], cc_rc, int(over), int(kfclass)))
+    q.info["real run"] = dict(what, ptgpp_rc=r["rc"], cc_rc=cc_rc, ptgpp_stderr=r["stderr"][-300:], cc_errors=cc_err)
+
+
+def real_gen_locals(named, nld):
+    def g(ctx, q, qdir, overlays):
+        real_run(ctx, q, qdir, overlays, jdf_text_locals(named, nld), named + nld > 20, False,
+                 {"named locals": named, "local indices": nld})
+    return g
+
+
 def real_gen(nr, nw, nc, nx):
     def g(ctx, q, qdir, overlays):
-        jp = os.path.join(qdir, "c24prog.jdf")
-        with open(jp, "w") as f:
-            f.write(jdf_text(nr, nw, nc, nx))
-        r = ptg.run(ctx, jp, qdir, name="c24prog", overlays=overlays, check=False, opts=["--Werror"])
-        cc_rc = -1
-        cc_err = ""
-        if r["rc"] == 0:
-            cmd = ["gcc", "-fsyntax-only", "-w", "-D_GNU_SOURCE", "-std=gnu11", "-I."] + ctx.inc_flags(overlays) + ["c24prog.c"]
-            p = subprocess.run(cmd, cwd=qdir, stdout=subprocess.PIPE, stderr=subprocess.PIPE, text=True)
-            cc_rc = p.returncode
-            cc_err = "\n".join(l for l in p.stderr.splitlines() if "error" in l)[:400]
-        with open(os.path.join(qdir, "c24_result.h"), "w") as f:
-            f.write("#define PTGPP_RC %d\n#define CC_RC %d\n#define NFLOWS_TOTAL %d\n#define NFLOWS_READ %d\n#define NFLOWS_WRITE %d\n"
-                    % (r["rc"], cc_rc, nr + nw + nc + nx, nr + nx, nw + nx))
-        q.info["real run"] = {"flows": {"READ": nr, "WRITE": nw, "CTL": nc, "RW": nx}, "ptgpp_rc": r["rc"], "cc_rc": cc_rc,
-                              "ptgpp_stderr": r["stderr"][-300:], "cc_errors": cc_err}
+        total = nr + nw + nc + nx
+        over = total > 20 or nr + nx > 20 or nw + nx > 20
+        real_run(ctx, q, qdir, overlays, jdf_text(nr, nw, nc, nx), over, total > 20 and nr + nx <= 20 and nw + nx <= 20,
+                 {"flows": {"READ": nr, "WRITE": nw, "CTL": nc, "RW": nx}})
     return g
 
 
@@ -58,6 +79,19 @@ def queries(ctx):
             info={"symbolic": ["number of flows 0..23", "type of every flow", "number 0..12 and direction of the dependencies of the first two flows"],
                   "stubs": ["vsnprintf/fprintf inside jdf_warn/jdf_fatal are empty for the solver (diagnostic text is not part of the verdict)"], "functions": ["jdf_sanity_check_flows_and_deps_number"],
                   "bounds": {"flows": 23, "deps/flow": 12, "flows with deps": 2}})]
+    qs.append(Q("limits_symbolic_locals", ["locals.c"], defs=["NL=23", "NLD=4"], unwind=26, object_bits=10, timeout=1800,
+                units=["parsec/interfaces/ptg/ptg-compiler/jdf2c.c", "parsec/interfaces/ptg/ptg-compiler/jdf.h"],
+                incs=[os.path.join(ctx.repo, "parsec/interfaces/ptg/ptg-compiler")],
+                info={"symbolic": ["number of named locals 0..23", "nb_max_local_def (local-definition slots) 0..4"],
+                      "stubs": ["exit -> harness (asserts the rejection is justified, ends the path)", "jdf_fatal (empty)",
+                                "string arena / list dumper / asprintf empty for the solver (real in the native replay)"],
+                      "functions": ["jdf_generate_task_typedef"], "bounds": {"named locals": 23, "slots": 4}}))
+    # concrete replays of the locals clause: (named locals, local indices)
+    for nn, nld in ((18, 2), (19, 2), (20, 0), (21, 0)):
+        qs.append(Q("real_ptgpp_locals_%dnamed_%dldef" % (nn, nld), ["real.c"], gen=real_gen_locals(nn, nld), cflags=ptg.CFLAGS,
+                    engine="G", unwind=2, units=ptg.UNITS, timeout=600,
+                    info={"enumerated": {"named locals": nn, "local indices": nld}, "symbolic": [],
+                          "functions": ["parsec-ptgpp --Werror (whole program, rebuilt from the current sources)", "gcc -fsyntax-only on the emitted C"]}))
     # concrete replays through the real tool chain: (READ, WRITE, CTL, RW)
     for nr, nw, nc, nx in ((11, 10, 0, 0), (10, 10, 0, 0), (21, 0, 0, 0), (0, 0, 1, 20), (8, 8, 5, 0)):
         total = nr + nw + nc + nx
@@ -72,10 +106,23 @@ def queries(ctx):
 
 def mutants(ctx):
     return [
-        Mutant("read_limit_off_by_one", JC, "if( MAX_PARAM_COUNT < flows_in ) {", "if( MAX_PARAM_COUNT + 1 < flows_in ) {"),
-        Mutant("write_flows_not_counted", JC, "flows_out += !!(JDF_FLOW_TYPE_WRITE & flow->flow_flags);", "flows_out += !!(JDF_FLOW_TYPE_CTL & flow->flow_flags);"),
-        Mutant("dep_out_limit_uses_in_count", JC, "if( MAX_DEP_OUT_COUNT < deps_out ) {", "if( MAX_DEP_OUT_COUNT < deps_in ) {"),
-        Mutant("deps_counted_across_flows", JC, "            deps_in = deps_out = 0;\n            for(dep = flow->deps;", "            for(dep = flow->deps;"),
+        # (since the total-flows check exists, weakening only the READ or only the WRITE count is an equivalent change for the
+        #  accept/reject verdict: more than 20 READ flows are also more than 20 flows)
+        Mutant("total_flows_limit_off_by_one", JC, "if( MAX_PARAM_COUNT < flows_total ) {", "if( MAX_PARAM_COUNT + 1 < flows_total ) {", queries=["limits_symbolic_ast"]),
+        Mutant("ctl_flows_not_counted_in_total", JC, "            flows_total++;", "            flows_total += !(JDF_FLOW_TYPE_CTL & flow->flow_flags);", queries=["limits_symbolic_ast", "real_ptgpp_8R_8W_5C_0RW"]),
+        Mutant("dep_out_limit_uses_in_count", JC, "if( MAX_DEP_OUT_COUNT < deps_out ) {", "if( MAX_DEP_OUT_COUNT < deps_in ) {", queries=["limits_symbolic_ast"]),
+        # locals clause: the ldef[] slots of local indices are not counted by the limit check
+        Mutant("locals_check_ignores_local_definition_slots", "parsec/interfaces/ptg/ptg-compiler/jdf2c.c",
+               "    if( nb_locals > MAX_LOCAL_COUNT ) {", "    if( nb_locals - f->nb_max_local_def > MAX_LOCAL_COUNT ) {",
+               queries=["limits_symbolic_locals"]),
+        Mutant("locals_check_ignores_slots_real_tool", "parsec/interfaces/ptg/ptg-compiler/jdf2c.c",
+               "    if( nb_locals > MAX_LOCAL_COUNT ) {", "    if( nb_locals - f->nb_max_local_def > MAX_LOCAL_COUNT ) {",
+               queries=["real_ptgpp_locals_19named_2ldef"]),
+        Mutant("locals_limit_off_by_one", "parsec/interfaces/ptg/ptg-compiler/jdf2c.c",
+               "    if( nb_locals > MAX_LOCAL_COUNT ) {", "    if( nb_locals >= MAX_LOCAL_COUNT ) {",
+               queries=["limits_symbolic_locals", "real_ptgpp_locals_18named_2ldef"]),
+        Mutant("deps_counted_across_flows", JC, "            deps_in = deps_out = 0;\n            for(dep = flow->deps;", "            for(dep = flow->deps;", queries=["limits_symbolic_ast"]),
+        Mutant("total_flows_not_checked", JC, "if( MAX_PARAM_COUNT < flows_total ) {", "if( 0 ) {", queries=["limits_symbolic_ast", "real_ptgpp_11R_10W_0C_0RW"]),
     ]
 
 
@@ -85,7 +132,9 @@ MANIFEST = {
  "text": "The one decidable clause of the property: the real jdf_sanity_check_flows_and_deps_number of jdf.c is executed symbolically "
          "by CBMC on an abstract syntax tree built directly with a symbolic number (0..23) of flows of symbolic type and symbolic "
          "dependency lists; a SAT query shows that it reports an error exactly when the READ, WRITE or total flow counts or the "
-         "per-flow input/output dependency counts exceed the configured limits. The solver's answer is tied to the real tool by "
+         "per-flow input/output dependency counts exceed the configured limits; a second query runs the real jdf_generate_task_typedef of "
+         "jdf2c.c on a symbolic number of named locals and local-definition slots and shows that the generator gives up exactly when "
+         "their sum exceeds MAX_LOCAL_COUNT. The solver's answer is tied to the real tool by "
          "queries that run the parsec-ptgpp rebuilt from the current sources (--Werror) and gcc on concrete programs at and over the "
          "limits. Known finding C24-total-flows (total flow count unchecked) is reported and excluded.",
  "note": "'accepted implies the emitted C compiles' for arbitrary programs and output determinism are outside (not encodable); "
